@@ -90,6 +90,14 @@ package ers
 //@   requires sinv(e)
 //@   ensures result == errIs(e.err, err)
 
+// As defers to errors.As on the node's own error (every node of the chain, not
+// only the head, answers for its constituent: errors.As reaches the inner nodes
+// through Unwrap).
+//@ func (*Stack).As
+//@   props C12
+//@   requires e != nil
+//@   ensures result == errAs(e.err, target)
+
 // Unwind lists every constituent exactly once, most recent first.
 //@ func (*Stack).Unwind
 //@   props C12
